@@ -18,7 +18,7 @@ OUTSIDE = ['public-key derivation against an independent implementation (curve a
 ASSUMPTIONS = ['address = base58(tz1/tz2/tz3/tz4 by curve, Blake2b-160 of the public key)', 'BIP-39: a word sequence is valid iff its last ENT/32 bits equal the first bits of SHA-256 over the first ENT bits taken as exactly ENT/8 bytes']
 
 PKH = {'ed': b'tz1', 'sp': b'tz2', 'p2': b'tz3', 'BL': b'tz4'}
-DERIVE = {'ed': 'ed25519.pk_of_seed', 'sp': 'secp256k1.pk', 'p2': 'p256.pk', 'BL': 'bls.pk'}
+DERIVE = {'ed': 'ed25519.pk_of_seed', 'sp': 'secp256k1.pk', 'p2': 'p256.point', 'BL': 'bls.pk'}
 
 
 def _same(ex, a, b, label):
@@ -36,7 +36,16 @@ def sym_address(P, ex):
     curve = P['curve']
     with cryptostub.env(ex) as (c, b):
         secret, key = C07._mk_key(K, ex, curve)
-        org = c.origin_of(key.public_point)
+        if curve == 'p2':
+            # SEC1 compressed form of the point derived from the secret: parity tag, then x on exactly 32 bytes
+            pts = [x for x in c.calls if x[0] == 'p256.point']
+            ex.check(len(pts) == 1, 'one point derivation')
+            raw = pts[0][2]
+            want = bvx.SymBytes([bvx.SymInt(bvx.bv(2) + (bvx.bv(raw[63]) & 1))] + list(raw[:32].items))
+            _same(ex, key.public_point, want, 'public key = SEC1 compressed form (tag by the parity of y, x on 32 bytes)')
+            org = pts[0][:2]
+        else:
+            org = c.origin_of(key.public_point)
         ex.check(org is not None and org[0] == DERIVE[curve], 'public key is derived by the primitive of the curve')
         arg = org[1][0]
         if curve in ('ed', 'sp'):
@@ -376,6 +385,19 @@ def sym_derive(P, ex):
 
 # --- replay ---------------------------------------------------------------------------------------------------------------
 def conc(P, w):
+    res = _conc(P, w)
+    if res['ok'] and P.get('curve') == 'p2' and P['what'] in ('address', 'roundtrip'):
+        # the witness constrains a primitive output (the x coordinate); real keys cannot be chosen by their public point, so other secrets are tried until one has that shape
+        base = int.from_bytes(C07.real_secret('p2', w.get('secret')), 'big')
+        for i in range(1, 1500):
+            w2 = dict(w, secret=((base + i) % C07.ORDERS['p2'] or 1).to_bytes(32, 'big'))
+            r2 = _conc(P, w2)
+            if not r2['ok']:
+                return dict(r2, note=f'reproduced with secret + {i}', secret={'hex': w2['secret'].hex()})
+    return res
+
+
+def _conc(P, w):
     from pytezos.crypto.key import Key
 
     problems = []
